@@ -60,9 +60,16 @@ type progGen struct {
 	preOp   []byte // emitted directly before the next tested opcode (e.g. HALT), then cleared
 	ramOnly bool   // pointers only into writable plain memory (no ROM, no FEA0-FEFF, no IF)
 	cartRAM bool   // also point into the cartridge RAM window (free-running workloads only)
+	onlyOAM bool   // pointers only into FE00-FEFF (C17)
 }
 
 func (g *progGen) pick(span int) uint16 {
+	if g.onlyOAM {
+		if g.r.Chance(1, 4) {
+			return uint16(0xfea0 - 2 + g.r.Intn(4))
+		}
+		return 0xfe00 + uint16(g.r.Intn(0x100-span))
+	}
 	if g.cartRAM && g.r.Chance(1, 4) {
 		if g.r.Chance(1, 2) {
 			return 0xa000 + uint16(g.r.Intn(16))
@@ -272,11 +279,13 @@ type lockstep struct {
 	events     []engine.Event
 	ei         int
 	stopped    bool
-	irqMid     bool           // an interrupt line rose while the current instruction was in flight
-	haltAt     uint64         // boundary at which the (first) HALT instruction finished, 0 = not yet
-	relEvents  []engine.Event // events relative to the HALT
-	pendingArm func()         // run once after the next re-synchronisation
-	ifRefEnd   uint8          // the reference IF at the end of the instruction, before re-synchronisation
+	irqMid     bool             // an interrupt line rose while the current instruction was in flight
+	haltAt     uint64           // boundary at which the (first) HALT instruction finished, 0 = not yet
+	relEvents  []engine.Event   // events relative to the HALT
+	pendingArm func()           // run once after the next re-synchronisation
+	ifRefEnd   uint8            // the reference IF at the end of the instruction, before re-synchronisation
+	ppu        dmgref.PPUTiming // reference LCD timing (follows the guest's LCDC writes)
+	mode2Seen  bool             // the reference was in mode 2 at some boundary of the instruction in flight
 
 	// per-instruction callback: return false to stop the run
 	onInstr func(l *lockstep, realCycles int, mism []lsMismatch) bool
@@ -357,7 +366,11 @@ func newLockstep(sc *engine.Scenario, res *engine.Result) *lockstep {
 	m.GuardUndefined = true
 	l.ref.Bus = l
 	// quiesce the hardware parties that could raise interrupt lines on their own
-	m.Write(0xff40, 0x00) // LCD off
+	l.ppu.SwitchOn() // power-on state
+	if sc.P("keep_lcd", 0) == 0 {
+		m.Write(0xff40, 0x00) // LCD off
+		l.ppu.SwitchOff()
+	}
 	m.Write(0xff07, 0x00) // timer off
 	// fill the plain memory windows
 	fr := engine.NewRand(uint64(sc.P("fill", 1)))
@@ -470,8 +483,24 @@ func (l *lockstep) run(maxCycles uint64) {
 	l.k = 0
 	m.OnCycle = func() {
 		l.k++
+		if l.ppu.On && l.ppu.Mode() == 2 {
+			l.mode2Seen = true // mode 2 at the boundary before this cycle
+		}
 		if l.k == 1 || !l.ref.AtBoundary() {
 			l.ref.Cycle()
+			for _, a := range l.ref.Acc {
+				if a.Write && a.Addr == 0xff40 && a.Cycle == l.ref.Cycles {
+					if a.Val&0x80 != 0 && !l.ppu.On {
+						l.ppu.SwitchOn()
+					} else if a.Val&0x80 == 0 && l.ppu.On {
+						l.ppu.SwitchOff()
+					}
+				}
+			}
+		}
+		l.ppu.Tick()
+		if l.ppu.On && l.ppu.Mode() == 2 {
+			l.mode2Seen = true
 		}
 		if l.onCycle != nil {
 			l.onCycle(l)
@@ -568,6 +597,7 @@ func (l *lockstep) finishInstr() bool {
 	}
 	l.k = 0
 	l.irqMid = false
+	l.mode2Seen = false
 	l.syncRegs()
 	if ok && l.pendingArm != nil {
 		f := l.pendingArm
